@@ -17,8 +17,17 @@ ULP = 4
 
 
 def grids(rng, n):
-    kind = rng.integers(4)
+    kind = rng.integers(6)
     R = 10 ** rng.uniform(-3, -1.5)
+    if kind >= 4:
+        # fine meshes (cells of 5 nm … 1 µm) that are mildly non-uniform: cell sizes differ by far less than any absolute tolerance in
+        # metres (1e-8) yet by 1e-4 … 5e-2 relatively — "every strictly increasing radial grid"
+        dr0 = float(10 ** rng.uniform(-8.3, -6)); g_ = 1 + float(10 ** rng.uniform(-4, -1.3))
+        if kind == 4:
+            dr = dr0 * np.where(np.arange(n - 1) < (n - 1) // 3, 1.0, g_)          # two plateaus of slightly different cell size
+        else:
+            dr = dr0 * g_ ** (np.arange(n - 1) / max(n - 2, 1))                      # slowly growing cells
+        return "fine-mild", np.concatenate([[0.0], np.cumsum(dr)])
     if kind == 0:
         return "uniform", np.linspace(0, R, n)
     if kind == 1:
@@ -44,7 +53,7 @@ def density(rng, r):
             rho[:k] = a_; rho[k:2 * k] = -a_
         return ("cancelling" if kind == 4 else "zero"), rho
     a = R * rng.uniform(0.05, 0.8)
-    amp = -10 ** rng.uniform(-5, -1)
+    amp = -10 ** (rng.uniform(-5, -1) if rng.integers(3) else rng.uniform(-26, -6))     # down to far below one elementary charge per m^3
     if kind == 0:
         return "smooth", amp * np.exp(-(r / a) ** 2)
     if kind == 1:
@@ -99,7 +108,14 @@ def run(ctx):
             if integer:
                 x = rd.tridiagonal_matrix_algorithm(l.astype(np.int64), d.astype(np.int64), u.astype(np.int64), b.astype(np.int64))
             else:
+                keep = [v.copy() for v in (l, d, u, b)]
                 x = rd.tridiagonal_matrix_algorithm(l, d, u, b)
+                # the system belongs to the caller (a pre-computed FD system is solved again and again): arrays unchanged, same answer again
+                x2 = rd.tridiagonal_matrix_algorithm(l, d, u, b)
+                if any(not np.array_equal(a_, b_) for a_, b_ in zip(keep, (l, d, u, b))) or not np.array_equal(x, x2, equal_nan=True):
+                    ctx.fail("correspondence", f"tridiagonal_matrix_algorithm modified its arguments / a second solve of the same system differs (n={n})",
+                             inp={"op": "tdma_twice", "l": keep[0], "d": keep[1], "u": keep[2], "b": keep[3]})
+                    l, d, u, b = keep
         except Exception as ex:
             ctx.fail("correspondence", f"tridiagonal_matrix_algorithm raised {type(ex).__name__} on a strictly diagonally dominant system (n={n}, integer={integer})",
                      inp={"op": "tdma", "l": l, "d": d, "u": u, "b": b})
@@ -153,8 +169,12 @@ def run(ctx):
 
 
 def stmt_tdma(rd, l, d, u, b):
+    keep = [np.array(v, copy=True) for v in (l, d, u, b)]
     try:
         x = rd.tridiagonal_matrix_algorithm(l, d, u, b)
+        if any(not np.array_equal(a_, b_) for a_, b_ in zip(keep, (l, d, u, b))):
+            return {"key": {"clause": "tdma_residual"}, "what": f"tridiagonal_matrix_algorithm overwrote the system it was given (size {keep[0].size}): a second solve with the same arrays "
+                    "no longer solves M x = b", "input": {"op": "tdma", "l": keep[0], "d": keep[1], "u": keep[2], "b": keep[3]}}
     except Exception as ex:
         return {"key": {"clause": "tdma_residual"}, "what": f"tridiagonal_matrix_algorithm raises {type(ex).__name__} on a strictly diagonally dominant system of size {l.size}",
                 "input": {"op": "tdma", "l": l, "d": d, "u": u, "b": b}}
@@ -204,6 +224,13 @@ def stmt_potential(rd, r, rho, kind):
     if np.any(np.abs(phi - (pp + pn)) > 1e-9 * (np.max(np.abs(pp)) + np.max(np.abs(pn))) + 1e-300):
         out.append({"key": {"clause": "linear"}, "what": f"radial_potential_{"non" if kind == "non" else ""}uniform_grid: potential of a signed charge is not the sum of the potentials of its positive and negative parts "
                     f"(max |phi| {np.abs(phi).max():.3e}, parts {np.abs(pp).max():.3e} / {np.abs(pn).max():.3e})", "input": {"op": "radpot", "kind": kind, "r": r, "rho": rho}})
+    # homogeneity over many decades (a dilute residual charge is still a charge)
+    for al in (1e-9, 1e-18):
+        pa = f(r, al * rho)
+        if np.any(np.abs(pa - al * phi) > 1e-9 * al * np.max(np.abs(phi)) + 1e-300):
+            out.append({"key": {"clause": "linear"}, "what": f"radial_potential_{"non" if kind == "non" else ""}uniform_grid: potential of {al:g} x rho is not {al:g} x the potential of rho "
+                        f"(max |phi| {np.abs(pa).max():.3e} vs {al * np.abs(phi).max():.3e})", "input": {"op": "radpot", "kind": kind, "r": r, "rho": rho}})
+            break
     # linearity
     phi2 = f(r, 2.5 * rho)
     if np.any(np.abs(phi2 - 2.5 * phi) > 1e-9 * np.max(np.abs(phi2)) + 1e-300):
